@@ -1264,7 +1264,13 @@ class Engine(object):
             it = it.as_seq_or_list(st)
         if isinstance(it, SSeq):
             return self.for_symbolic(node, it, frame, st)
-        items = self.iterate(it, st)
+        if isinstance(it, GList) and not all(z3.is_true(g) for g, _ in it.items):
+            try:
+                items = self.iterate(it, st)
+            except Unsupported:
+                return self.for_conditional(node, it, frame, st)
+        else:
+            items = self.iterate(it, st)
         broke = False
         prev_lgb = frame.locals.get("__loop_guard_base__")
         frame.locals["__loop_guard_base__"] = len(st.guards)
@@ -1275,6 +1281,39 @@ class Engine(object):
                 frame.locals.pop("__loop_guard_base__", None)
             else:
                 frame.locals["__loop_guard_base__"] = prev_lgb
+
+    def for_conditional(self, node, gl, frame, st):
+        """loop over a list whose elements are present under conditions: the body of a
+        conditionally present element is merged under its guard (or forked when it cannot be)"""
+        if node.orelse:
+            raise Unsupported("for/else over conditionally present elements")
+        for g, x in list(gl.items):
+            if z3.is_true(g):
+                self.assign(node.target, x, frame, st)
+                try:
+                    self.exec_block(node.body, frame, st)
+                except ContinueSig:
+                    continue
+                except BreakSig:
+                    return
+                continue
+
+            def body(x=x):
+                self.assign(node.target, x, frame, st)
+                self.exec_block(node.body, frame, st)
+
+            try:
+                self.guarded(g, body, st)
+            except NeedFork:
+                if st.guards:
+                    raise
+                if st.decide(g, "element present?"):
+                    try:
+                        body()
+                    except ContinueSig:
+                        continue
+                    except BreakSig:
+                        return
 
     def _for_concrete(self, node, items, frame, st):
         broke = False
@@ -1355,7 +1394,16 @@ class Engine(object):
     # -- try/except -----------------------------------------------------------------------------
     def st_Try(self, node, frame, st):
         if st.guards:
-            raise NeedFork("try under merge guard")
+            # under a merge guard a try statement is fine as long as nothing is raised in it
+            if node.finalbody:
+                raise NeedFork("try/finally under merge guard")
+            try:
+                self.exec_block(node.body, frame, st)
+            except PyRaise:
+                raise NeedFork("exception under merge guard")
+            if node.orelse:
+                self.exec_block(node.orelse, frame, st)
+            return
         try:
             try:
                 self.exec_block(node.body, frame, st)
@@ -1412,6 +1460,12 @@ class Engine(object):
         gn = [g for g in gn if isinstance(g, FV)]
         if not gn:
             return v
+        # a value merged under one of the active guards is read as the value stored under it
+        gids = {g.id for g in gn}
+        while isinstance(v, FV) and v.ite is not None and v.ite[0].id in gids:
+            v = v.ite[1]
+        if not isinstance(v, FV):
+            return v
         anc = fd.ancestors(v)
         rel = [g for g in gn if g.id in anc or any(a in anc for a in fd.ancestors(g))]
         if not rel:
@@ -1422,6 +1476,17 @@ class Engine(object):
             return v
         if len(idx) == 1:
             return v.values[idx[0]]
+        if 1 < len(idx) < len(v.values):
+            # under the guards only these values occur: read the choice restricted to them
+            allowed = {vkey(v.values[i]) for i in idx}
+            first = v.values[idx[0]]
+            key = (v.id, tuple(idx))
+            cache = st.ghost.setdefault("restricted", {})
+            r = cache.get(key)
+            if r is None:
+                r = fd.apply(lambda x: x if vkey(x) in allowed else first, v)
+                cache[key] = r
+            return r
         return v
 
     def ex_Name(self, node, frame, st):
@@ -1489,6 +1554,8 @@ class Engine(object):
         raise Unsupported("set display with symbolic elements")
 
     def ex_Dict(self, node, frame, st):
+        if not node.keys and self.hooks.get("empty_dict_is_map"):
+            return SMap.empty("dict@%d" % node.lineno)
         d = {}
         for k, v in zip(node.keys, node.values):
             if k is None:
@@ -1587,6 +1654,9 @@ class Engine(object):
     def get_slice(self, obj, lo, hi, step, st):
         if isinstance(obj, S.SplitResult) and hi is None and step is None and isinstance(lo, int):
             return obj.tail(lo)
+        if isinstance(obj, GList) and hi is None and step is None and isinstance(lo, int) and lo >= 0:
+            if all(z3.is_true(g) for g, _ in obj.items[:lo]):
+                return self.born(GList(obj.items[lo:]), st)
         if all(not is_sym(x) for x in (lo, hi, step)):
             sl = slice(lo, hi, step)
             if isinstance(obj, FV):
@@ -1828,6 +1898,20 @@ class Engine(object):
 
     def binop(self, op, l, r, st):
         l, r = to_num(l), to_num(r)
+        from .models import SFloat, float_real
+
+        if isinstance(l, SFloat) or isinstance(r, SFloat):
+            if isinstance(l, DI) or isinstance(r, DI) or isinstance(l, (str, SStr)) or isinstance(r, (str, SStr)):
+                raise PyRaise(TypeError, ("unsupported operand types",))
+            (a, na), (b, nb) = float_real(l), float_real(r)
+            nf = z3.Or(na, nb)
+            if isinstance(op, ast.Add):
+                return SFloat(a + b, nf)
+            if isinstance(op, ast.Sub):
+                return SFloat(a - b, nf)
+            if isinstance(op, ast.Mult):
+                return SFloat(a * b, nf)
+            raise Unsupported("operator on an abstract float")
         if isinstance(op, ast.Add) and (isinstance(l, SStr) or isinstance(r, SStr)):
             if isinstance(l, (str, SStr)) and isinstance(r, (str, SStr)):
                 return S.concat(l, r)
@@ -1894,6 +1978,21 @@ class Engine(object):
 
     def compare(self, op, l, r, st):
         l, r = to_num(l), to_num(r)
+        from .models import SFloat, float_real
+
+        if (isinstance(l, SFloat) or isinstance(r, SFloat)) and isinstance(op, (ast.Eq, ast.NotEq, ast.Lt, ast.LtE, ast.Gt, ast.GtE)):
+            if l is None or r is None or isinstance(l, (str, SStr)) or isinstance(r, (str, SStr)):
+                if isinstance(op, ast.Eq):
+                    return False
+                if isinstance(op, ast.NotEq):
+                    return True
+                raise PyRaise(TypeError, ("ordering of float and non-number",))
+            (a, na), (b, nb) = float_real(l), float_real(r)
+            fin = z3.And(z3.Not(na), z3.Not(nb))
+            rel = {ast.Eq: a == b, ast.NotEq: a != b, ast.Lt: a < b, ast.LtE: a <= b, ast.Gt: a > b, ast.GtE: a >= b}[type(op)]
+            if isinstance(op, ast.NotEq):
+                return mk_bool(z3.Or(z3.Not(fin), rel))  # nan != x is True
+            return mk_bool(z3.And(fin, rel))
         if isinstance(op, (ast.Is, ast.IsNot)):
             neg = isinstance(op, ast.IsNot)
             if isinstance(l, FV) or isinstance(r, FV):
@@ -1952,6 +2051,12 @@ class Engine(object):
                 return mk_bool(_and([z3.BoolVal(p) if isinstance(p, bool) else p for p in parts]))
             raise Unsupported("equality of containers with symbolic content")
         if isinstance(l, S.SCat) or isinstance(r, S.SCat):
+            other = r if isinstance(l, S.SCat) else l
+            sc = l if isinstance(l, S.SCat) else r
+            if isinstance(other, str) and other == "":
+                e = S.scat_is_empty(sc)
+                if e is not None:
+                    return e
             z = S.structural_eq(l, r, eq_z3) if isinstance(l, (S.SCat, str, FV)) and isinstance(r, (S.SCat, str, FV)) else None
             if z is not None:
                 return mk_bool(z)
